@@ -264,7 +264,7 @@ func (w *haltWorld) runClient(cs M) (submit, res, msg, pre, post string) {
 	name := "cli-halt"
 	ty := str(cs["ty"])
 	switch str(cs["st"]) {
-	case "sametype":
+	case "sametype", "expired":
 		a, b := w.validStates(ty)
 		execIn(c, outer, clientProposal("Create", name, a, b, false))
 	case "othertype":
@@ -276,6 +276,17 @@ func (w *haltWorld) runClient(cs M) (submit, res, msg, pre, post string) {
 		execIn(c, outer, clientProposal("Create", name, a, b, false))
 	}
 	st, cons, nilCons := w.statesFor(ty, cs)
+	if str(cs["st"]) == "expired" {
+		// a trusting period of one second: every stored consensus state is older than that at execution time
+		switch x := st.(type) {
+		case *bsctypes.ClientState:
+			x.TrustingPeriod = 1
+		case *ethtypes.ClientState:
+			x.TrustingPeriod = 1
+		case *xibctmtypes.ClientState:
+			x.TrustingPeriod = time.Second
+		}
+	}
 	pre = ctxDigest(c, outer, "xibc")
 	submit, res, msg = execIn(c, outer, clientProposal(str(cs["kind"]), name, st, cons, nilCons))
 	post = ctxDigest(c, outer, "xibc")
@@ -284,7 +295,7 @@ func (w *haltWorld) runClient(cs M) (submit, res, msg, pre, post string) {
 
 func rvJSON(cs M) string {
 	coin := func(i int) string {
-		denom := map[string]string{"lower": "atele", "upper": "ATELE", "empty": "", "absent": "\x00"}[str(cs["denom"])]
+		denom := map[string]string{"lower": "atele", "upper": "ATELE", "empty": "", "absent": "\x00", "short": "x", "badchar": "a!b"}[str(cs["denom"])]
 		if i == 1 && str(cs["list"]) == "two" && denom == "atele" {
 			denom = "btok"
 		}
